@@ -1268,20 +1268,34 @@ let rowL x y z0 k =
   Z.coq_lxor (Z.modulo (Z.sub (Z.sub x y) z0) m32)
     (Z.modulo (Z.mul z0 (Z.pow (Zpos (XO XH)) k)) m32)
 
+(** val mixA : z -> ((z * z) * z) -> (z * z) * z **)
+
+let mixA k = function
+| (p, c) -> let (a, b) = p in (((rowR a b c k), b), c)
+
+(** val mixB : z -> ((z * z) * z) -> (z * z) * z **)
+
+let mixB k = function
+| (p, c) -> let (a, b) = p in ((a, (rowL b c a k)), c)
+
+(** val mixC : z -> ((z * z) * z) -> (z * z) * z **)
+
+let mixC k = function
+| (p, c) -> let (a, b) = p in ((a, b), (rowR c a b k))
+
 (** val lookup2_mix : ((z * z) * z) -> (z * z) * z **)
 
-let lookup2_mix = function
-| (p, c) ->
-  let (a, b) = p in
-  let a0 = rowR a b c (Zpos (XI (XO (XI XH)))) in
-  let b0 = rowL b c a0 (Zpos (XO (XO (XO XH)))) in
-  let c0 = rowR c a0 b0 (Zpos (XI (XO (XI XH)))) in
-  let a1 = rowR a0 b0 c0 (Zpos (XO (XO (XI XH)))) in
-  let b1 = rowL b0 c0 a1 (Zpos (XO (XO (XO (XO XH))))) in
-  let c1 = rowR c0 a1 b1 (Zpos (XI (XO XH))) in
-  let a2 = rowR a1 b1 c1 (Zpos (XI XH)) in
-  let b2 = rowL b1 c1 a2 (Zpos (XO (XI (XO XH)))) in
-  let c2 = rowR c1 a2 b2 (Zpos (XI (XI (XI XH)))) in ((a2, b2), c2)
+let lookup2_mix s =
+  let s0 =
+    mixC (Zpos (XI (XO (XI XH))))
+      (mixB (Zpos (XO (XO (XO XH)))) (mixA (Zpos (XI (XO (XI XH)))) s))
+  in
+  let s1 =
+    mixC (Zpos (XI (XO XH)))
+      (mixB (Zpos (XO (XO (XO (XO XH))))) (mixA (Zpos (XO (XO (XI XH)))) s0))
+  in
+  mixC (Zpos (XI (XI (XI XH))))
+    (mixB (Zpos (XO (XI (XO XH)))) (mixA (Zpos (XI XH)) s1))
 
 (** val le_word : z list -> z **)
 
